@@ -37,6 +37,10 @@ func checkC06(p *Prog, r *Report) {
 	} else {
 		r.Fail("WMC:C06:pnft.ExportGenesis#anchor", "anchor", "x/pnft", "ExportGenesis not found")
 	}
+	// ownership survives the import: the importer consumes every exported field, in particular the current Owner
+	if pimp := p.Func(Rel("x/pnft"), "InitGenesis"); pimp != nil {
+		checkPnftImportReadsAllFields(p, r, func(rule, rest string) string { return rule + ":C06:" + rest }, pimp)
+	}
 	// the owner every view (and therefore the genesis export, which is imported back as the ownership) reports is the stored
 	// owner record of that very token
 	pnftViewsAgree(p, r, func(rule, rest string) string { return rule + ":C06:" + rest })
